@@ -3,6 +3,7 @@
 set -e
 python3 /verif/translators/containers.py
 [ -f /verif/translators/panics.py ] && python3 /verif/translators/panics.py
+python3 /verif/translators/steporder.py
 cd /verif/lean
 lake build LazeModel lazemodel $(ls LazeModel/Theorems/*.lean | sed 's#/#.#g; s#\.lean$##')
 /verif/build_laze.sh
